@@ -27,7 +27,8 @@ import time
 import traceback
 from pathlib import Path
 
-VERIF = Path("/verif")
+# root of the verification tree: the directory this file lives in (so a snapshot of /verif is self-contained)
+VERIF = Path(__file__).resolve().parents[1]
 # VERIF_REPO lets a developer point the checks at a scratch worktree of /repo (never used by registered commands)
 REPO = Path(os.environ.get("VERIF_REPO") or "/repo")
 REPO_SRC = REPO / "src" / "tsim"
